@@ -1,3 +1,4 @@
 pub mod c01;
+pub mod c04;
 pub mod c05;
 pub mod c13;
